@@ -62,7 +62,7 @@ class Stats:
 
 class Explorer:
     def __init__(self, timeout_ms=20000, max_paths=200000, max_decisions=400, prefix=(),
-                 logic=None, margin=None, max_candidates=6, sample_every=0):
+                 logic=None, margin=None, max_candidates=3, sample_every=0):
         self.timeout_ms = timeout_ms
         self.max_paths = max_paths
         self.max_decisions = max_decisions
@@ -86,6 +86,8 @@ class Explorer:
     def _begin_path(self):
         self.solver = self._new_solver()
         self.constraints = []
+        self.defs = {}                # id of constraint term -> defined fresh variable (definitional extensions)
+        self.groups = {}              # id of assumption term -> group key (assumptions only relevant to one obligation group)
         self.model = None
         self.pos = 0
         self._fresh = 0
@@ -131,6 +133,89 @@ class Explorer:
             s.pop()
         self.stats.solver_time += time.time() - t0
         return res, m
+
+    def _free_vars(self, t, acc):
+        todo = [t]
+        seen = set()
+        while todo:
+            x = todo.pop()
+            i = x.get_id()
+            if i in seen:
+                continue
+            seen.add(i)
+            if z3.is_const(x):
+                if x.decl().kind() == z3.Z3_OP_UNINTERPRETED:
+                    acc[i] = x
+            else:
+                todo.extend(x.children())
+        return acc
+
+    def _check_sliced(self, *extra, group=None):
+        """same verdict as _check for unsat; drops definitional constraints (fresh sqrt variables) that the query
+        does not mention - a conservative extension can always be dropped. 'sat' results are re-checked in full."""
+        if len(self.defs) < 3 and not self.groups:
+            return self._check(*extra)
+        need = {}
+        for e in extra:
+            self._free_vars(e, need)
+        defs = [(c, self.defs.get(c.get_id())) for c in self.constraints]
+        changed = True
+        used = set()
+        while changed:
+            changed = False
+            for c, dv in defs:
+                if dv is not None and c.get_id() not in used and dv.get_id() in need:
+                    used.add(c.get_id())
+                    self._free_vars(c, need)
+                    changed = True
+        t0 = time.time()
+        self.stats.queries += 1
+        s = self._new_solver()
+        for c, dv in defs:
+            if dv is None:
+                cg = self.groups.get(c.get_id())
+                if cg is None or cg == group:
+                    s.add(c)
+            elif c.get_id() in used:
+                s.add(c)
+        s.add(*extra)
+        r = str(s.check())
+        self.stats.solver_time += time.time() - t0
+        if r == "unsat":
+            return "unsat", None
+        return self._check(*extra)
+
+    def _sample_sat(self, extra, tries=24, seed=0):
+        """'unknown' fallback for bug finding: pin most input variables to random small rationals (the query usually
+        becomes linear) and re-solve with a short timeout.  Only ever turns unknown into sat (a candidate that is
+        then replayed on the real code); it never contributes to a 'holds' verdict."""
+        import random
+        rnd = random.Random(seed)
+        need = {}
+        for e in extra:
+            self._free_vars(e, need)
+        for c in self.constraints:
+            self._free_vars(c, need)
+        defvars = {v.get_id() for v in self.defs.values()}
+        cand = [v for i, v in need.items() if i not in defvars and z3.is_real(v)]
+        if not cand:
+            return "unknown", None
+        vals = [z3.RealVal(x) for x in ("0", "1", "-1", "2", "1/2", "-1/2", "3/2", "1/3", "3", "-2", "5/4", "7/10", "1/4", "-3/4", "5", "1/10")]
+        for k in range(tries):
+            free = set(rnd.sample(range(len(cand)), min(len(cand), 1 + k % 3)))
+            pins = [v == rnd.choice(vals) for j, v in enumerate(cand) if j not in free]
+            s = z3.Solver()
+            s.set("timeout", 4000)
+            s.add(*self.constraints)
+            s.add(*extra)
+            s.add(*pins)
+            t0 = time.time()
+            r = str(s.check())
+            self.stats.queries += 1
+            self.stats.solver_time += time.time() - t0
+            if r == "sat":
+                return "sat", s.model()
+        return "unknown", None
 
     def _holds_in_model(self, c):
         if self.model is None:
@@ -277,7 +362,9 @@ class Explorer:
             return SymReal(hit[1])
         r = self.fresh_real("sqrt")
         self._sqrt_cache[key] = (t, r)
-        self._add(z3.And(r >= 0, r * r == t))
+        dc = z3.Implies(t >= 0, z3.And(r >= 0, r * r == t))
+        self.defs[dc.get_id()] = r
+        self._add(dc)
         self._domain.append(("sqrt-arg>=0", t >= 0))
         return SymReal(r)
 
@@ -302,18 +389,25 @@ class Explorer:
             return
         if z3.is_false(c):
             raise V.NonFinite("division by a term that is identically zero")
+        from . import merge as _m
+        gcur = _m.CURRENT_GUARD[0]
+        if gcur is not None and not z3.is_true(gcur):
+            c = z3.Implies(gcur, c)
         self._add(c)
         self._domain.append(("divisor!=0", c))
 
     # ------------------------------------------------------------------ harness API
-    def assume(self, c):
-        """harness precondition (a z3 Bool / SymBool / bool); aborts the path if infeasible"""
+    def assume(self, c, group=None):
+        """harness precondition (a z3 Bool / SymBool / bool); aborts the path if infeasible.
+        group: the assumption only matters for obligations of that group (sliced away for other groups: sound, weaker)"""
         if isinstance(c, SymBool):
             c = c.t
         if isinstance(c, (bool, np.bool_)):
             if not c:
                 raise PathAbort()
             return
+        if group is not None:
+            self.groups[c.get_id()] = group
         self._add(c)
         if self._holds_in_model(c) is not True:
             self.model = None
@@ -369,7 +463,7 @@ class Explorer:
             case[k] = self.model_value(m, v)
         return case
 
-    def check(self, name, ob, known=None, detail=None):
+    def check(self, name, ob, known=None, detail=None, group=None):
         """obligation `ob` (z3 Bool / SymBool / bool / list of those) must hold on this path for all values.
         known: optional dict finding_id -> region term (z3 Bool) of already recorded findings."""
         obs = ob if isinstance(ob, (list, tuple)) else [ob]
@@ -385,10 +479,16 @@ class Explorer:
         if z3.is_true(t):
             self.stats.discharged += 1
             return True
+        if sum(1 for c in self.stats.candidates if c.known is None) >= self.max_candidates:
+            # enough counterexample candidates in this case: do not spend solver time on further obligations
+            self.stats.skipped = getattr(self.stats, "skipped", 0) + 1
+            return False
         neg = z3.Not(t)
         regions = list((known or {}).items())
         extra = [neg] + [z3.Not(r) for _, r in regions]
-        r, m = self._check(*extra)
+        r, m = self._check_sliced(*extra, group=group)
+        if r == "unknown":
+            r, m = self._sample_sat(extra)
         ok = True
         if r == "sat":
             ok = False
@@ -400,7 +500,7 @@ class Explorer:
             self.stats.unknown += 1
             self.stats.errors.append("unknown: %s %s" % (name, self.case_info))
         for fid, reg in regions:
-            r2, m2 = self._check(neg, reg)
+            r2, m2 = self._check_sliced(neg, reg, group=group)
             if r2 == "sat":
                 ok = False
                 if sum(1 for c in self.stats.candidates if c.known == fid) < 2:
